@@ -592,6 +592,11 @@ impl TwistPoint {
     }
 
     pub fn point_add(&self, rhs: &Self) -> Self {
+        // the formulas below are the mixed addition: they hold only for an affine right operand (Z = 1)
+        if rhs.z != Fp2::one() {
+            return twist_point_add_full(self, rhs);
+        }
+
         let x1 = self.x;
         let y1 = self.y;
         let z1 = self.z;
